@@ -5,6 +5,7 @@ import random
 import re
 
 ROOT = os.path.dirname(os.path.dirname(os.path.abspath(__file__)))
+REPO = os.environ.get("POLAR_REPO", "/repo").rstrip("/")
 
 
 def _goals(text):
@@ -30,7 +31,7 @@ def repo_benchmarks(quick, seed, limit_quick=24):
     """repo benchmarks: tests/benchmarks with their '#test:' specifications (translator validation), and the
     benchmarks/ tree with first moments of up to three source variables"""
     out = []
-    for f in sorted(glob.glob("/repo/tests/benchmarks/*.prob")):
+    for f in sorted(glob.glob(REPO + "/tests/benchmarks/*.prob")):
         text = open(f).read()
         goals = []
         for ln in text.splitlines():
@@ -43,9 +44,9 @@ def repo_benchmarks(quick, seed, limit_quick=24):
         if goals:
             out.append(("tests/" + os.path.basename(f)[:-5], text, goals))
     rest = []
-    for f in sorted(glob.glob("/repo/benchmarks/**/*.prob", recursive=True)):
+    for f in sorted(glob.glob(REPO + "/benchmarks/**/*.prob", recursive=True)):
         text = open(f).read()
-        rest.append(("bench/" + os.path.relpath(f, "/repo/benchmarks")[:-5], text, ["@vars"]))
+        rest.append(("bench/" + os.path.relpath(f, REPO + "/benchmarks")[:-5], text, ["@vars"]))
     rest = [r for r in rest if "/defective/" not in r[0] and "/development/" not in r[0]]
     fast = os.path.join(ROOT, "corpus", "bench_fast.txt")
     if quick:
